@@ -152,3 +152,30 @@ SSA = dict(props=['C02', 'C05'], params={'address': 'int'},
 contract(LO + ':LineObject.set_start_address', name='abs:LineObject.set_start_address', covers_overrides=True, **SSA)
 contract(LO + '.directive_line.address:AddressOrgLine.set_start_address', name='abs:AddressOrgLine.set_start_address', **SSA)
 contract(LO + '.directive_line.page_align:PageAlignLine.set_start_address', name='abs:PageAlignLine.set_start_address', **SSA)
+
+# ---- byte generation: emitted == reserved ------------------------------------------------------------------
+GEN = dict(props=['C02', 'C04', 'C03', 'C11'],
+           requires=['line_wf(self)', 'len(self._bytes) == 0',
+                     'implies(isa(self, "FillUntilDataLine"), self._address is not None)'],
+           may_raise={'SystemExit': 'True', 'ValueError': 'True'},
+           ensures=['len(self._bytes) == line_size(self)',         # the bytes finally emitted equal the space reserved
+                    'line_size(self) == old(line_size(self))', 'self._bytes is old(self._bytes)', 'line_wf(self)',
+                    'not size_fails(self)'],
+           modifies=['self._count', 'self._value', 'self._fill_until_addr', 'self._fill_value', 'self._bytes[*]'],
+           allocates=True)
+GEN_IMPLS = [
+    (LO + ':LineWithBytes.generate_bytes', True, False),
+    (LO + '.directive_line.fill_data:FillDataLine.generate_bytes', False, False),
+    (LO + '.directive_line.fill_data:FillUntilDataLine.generate_bytes', False, False),
+    (LO + '.predefined_data:PredefinedDataLine.generate_bytes', False, False),
+    (LO + '.emdedded_string:EmbeddedString.generate_bytes', False, False),
+    (LO + '.data_line:DataLine.generate_bytes', False, True),
+    (LO + '.instruction_line:InstructionLine.generate_bytes', False, True),
+]
+for key, base, assumed in GEN_IMPLS:
+    kw = dict(GEN)
+    if base:
+        kw['may_raise'] = dict(GEN['may_raise'], NotImplementedError='True')
+    contract(key, name='abs:' + key.split(':')[1], covers_overrides=base, assumed=assumed,
+             reason='emitted == reserved for this line class is not yet verified (regex / nested instruction parts)'
+             if assumed else '', **kw)
